@@ -67,6 +67,13 @@ structure Obj where
   hasDoc : Bool
   /-- the object whose docstring is displayed for `ob` (`ensure_parsed_docstring`) -/
   docSource : Option Nat
+  /-- `source.docstring_linker._page_object` when that docstring is rendered: the page its links are
+  shortened for. The linker is created on first use (signature defaults create it while the AST is
+  built) and `reparent` does not reset it: for a re-exported object this is the *old* page. -/
+  docCtx : Option Nat
+  /-- `ob.parentMod` (`ob.module`); `reparent` updates it for the moved object only, not for what is
+  inside it -/
+  modul : Option Nat
   /-- resolved targets of the `L{…}` of the displayed docstring -/
   xrefs : List Nat
   /-- resolved targets of annotation / signature / decorator / value links (`link_to`) -/
@@ -305,8 +312,11 @@ the names are `fullName()`s of registered objects, looked up again in `allobject
 def assemble (s : Sys) (ids : List Nat) : List Nat :=
   ids.filter fun i => s.all.contains i && visible s i
 
-/-- the module an object lives in (`ob.module`) -/
-def moduleOf (s : Sys) (i : Nat) : Option Nat := (chain s i).find? fun a => (s.ob a).kind.isModule
+/-- the module an object lives in (`ob.module`, i.e. the `parentMod` attribute) -/
+def moduleOf (s : Sys) (i : Nat) : Option Nat := (s.ob i).modul
+
+/-- what `parentMod` is meant to be: the innermost module among the object and its parents -/
+def moduleByChain (s : Sys) (i : Nat) : Option Nat := (chain s i).find? fun a => (s.ob a).kind.isModule
 
 /-! ### the producer table -/
 
@@ -340,13 +350,14 @@ def sumLinks (s : Sys) (row : Row) (page : File) (o : Nat) : List Emit :=
 
 /-- links of the displayed docstring of `o`, rendered into `page`. `format_docstring` hands
 `source.docstring_linker` to `to_stan` without `switch_context`: the shortening is relative to the
-page of the docstring's *source*. -/
+page object that linker remembers (the page of the docstring's *source*, as it was when the linker
+was created), not to `page`. -/
 def docLinks (s : Sys) (page : File) (o : Nat) : List Emit :=
   match (s.ob o).docSource with
   | none => []
-  | some src =>
-    match pageObject s src with
-    | none => []
+  | some _ =>
+    match (s.ob o).docCtx with
+    | none => (s.ob o).xrefs.map (link .docXref page none)
     | some sp => (s.ob o).xrefs.map (link .docXref page (some (pageFile s sp)))
 
 /-- `_AnnotationLinker.link_to`: `switch_context(self._obj)` -/
@@ -446,17 +457,53 @@ def hasSpace (nm : List Char) : Bool := nm.contains ' '
 /-- classes in `allobjects` order -/
 def classes (s : Sys) : List Nat := s.all.filter fun i => (s.ob i).kind = .cls
 
-/-- `findRootClasses`: the visible classes (no `' '` in `name`) without bases -/
-def rootClasses (s : Sys) : List Nat :=
-  (classes s).filter fun c => !hasSpace (s.ob c).name && visible s c && (s.ob c).baseNames.isEmpty
+/-- a value of the `roots` dict of `findRootClasses`: a class, or the list of classes that have the
+(unresolved or not visible) base named by the key -/
+inductive RootVal
+  | one (c : Nat)
+  | many (l : List Nat)
+  deriving Repr, DecidableEq
 
-/-- `findRootClasses`: `(name, cls)` for every base of a listed class that is unresolved or not visible -/
-def baseGroups (s : Sys) : List (Name × Nat) :=
-  ((classes s).filter fun c => !hasSpace (s.ob c).name && visible s c).flatMap fun c =>
-    ((s.ob c).baseNames.zip (s.ob c).bases).filterMap fun (nm, b) =>
-      match b with
-      | none => some (nm, c)
-      | some b => if visible s b then none else some (nm, c)
+abbrev Roots := List (List Char × RootVal)
+
+/-- `roots.get(k)` -/
+def rget : Roots → List Char → Option RootVal
+  | [], _ => none
+  | (k', v) :: r, k => if k' = k then some v else rget r k
+
+/-- `roots[k] = v` -/
+def rset : Roots → List Char → RootVal → Roots
+  | [], k, v => [(k, v)]
+  | (k', v') :: r, k, v => if k' = k then (k', v) :: r else (k', v') :: rset r k v
+
+/-- ```
+if isinstance(roots.get(name), model.Class): roots[name] = [roots[name]]
+roots.setdefault(name, []).append(cls)
+``` -/
+def addBase (r : Roots) (nm : List Char) (c : Nat) : Roots :=
+  match rget r nm with
+  | some (.one k) => rset r nm (.many [k, c])
+  | some (.many l) => rset r nm (.many (l ++ [c]))
+  | none => rset r nm (.many [c])
+
+/-- the body of the loop of `findRootClasses` for one class. Keys are strings: the qualified name of a
+class without bases and the *name* of an unresolved or invisible base share one dict — a class whose
+base could not be resolved although a class of that name exists can overwrite, or be overwritten. -/
+def rootStep (s : Sys) (r : Roots) (c : Nat) : Roots :=
+  if hasSpace (s.ob c).name || !visible s c then r
+  else if (s.ob c).baseNames.isEmpty then rset r (fullName s c) (.one c)
+  else
+    ((s.ob c).baseNames.zip (s.ob c).bases).foldl (fun r (nb : Name × Option Nat) =>
+      match nb.2 with
+      | none => addBase r nb.1 c
+      | some b => if visible s b then r else addBase r nb.1 c) r
+
+/-- `summary.findRootClasses` (before sorting) -/
+def findRootClasses (s : Sys) : Roots := (classes s).foldl (rootStep s) []
+
+def RootVal.classes : RootVal → List Nat
+  | .one c => [c]
+  | .many l => l
 
 /-- `summary.isClassNodePrivate` -/
 def classNodePrivate (s : Sys) : Nat → Nat → Bool
@@ -471,7 +518,7 @@ def subclassesFrom (s : Sys) : Nat → Nat → List Nat
 
 /-- every class that gets an entry (and the anchor `name=fullName`) in classIndex.html -/
 def classIndexListed (s : Sys) : List Nat :=
-  (rootClasses s).flatMap (subclassesFrom s s.n) ++ (baseGroups s).flatMap fun (_, c) => subclassesFrom s s.n c
+  (findRootClasses s).flatMap fun kv => kv.2.classes.flatMap (subclassesFrom s s.n)
 
 def classIndexEmits (s : Sys) : List Emit :=
   (classIndexListed s).flatMap fun c =>
@@ -481,9 +528,10 @@ def classIndexEmits (s : Sys) : List Emit :=
 /-- the unlinked root nodes of classIndex.html: the name of the unresolved / not visible base, and
 whether the node is marked private (`all(isClassNodePrivate(sc) for sc in o)`) -/
 def classIndexTexts (s : Sys) : List (Name × Bool) :=
-  let g := baseGroups s
-  (g.map (·.1)).eraseDups.map fun nm =>
-    (nm, (g.filter (·.1 = nm)).all fun (_, c) => classNodePrivate s s.n c)
+  (findRootClasses s).filterMap fun kv =>
+    match kv.2 with
+    | .one _ => none
+    | .many l => some (kv.1, l.all (classNodePrivate s s.n))
 
 def visibleAll (s : Sys) : List Nat := s.all.filter (visible s)
 
@@ -573,12 +621,12 @@ def Row.listing : Row → Bool
 
 /-! ### well-formedness of the table (what C02 establishes about a real System) -/
 
-/-- per object: a parentless object is a module, a parent is numbered lower and one of the two has
-its own page; `contents` is in range, agrees with `parent`, and has pairwise different names -/
+/-- per object: a parentless object is a module, a parent is numbered lower and has its own page
+(functions and attributes contain nothing); `contents` is in range, agrees with `parent`, and has pairwise different names -/
 def wfObj (s : Sys) (i : Nat) : Bool :=
   (match (s.ob i).parent with
     | none => (s.ob i).kind.isModule
-    | some p => decide (p < i) && ((s.ob i).kind.ownPage || (s.ob p).kind.ownPage))
+    | some p => decide (p < i) && (s.ob p).kind.ownPage)
   && (s.ob i).contents.all (fun c => decide (c < s.n) && (s.ob c).parent == some i)
   && (s.ob i).contents.all (fun c => (s.ob i).contents.all fun d => c == d || (s.ob c).name != (s.ob d).name)
 
@@ -592,9 +640,14 @@ def spellingsApart (s : Sys) : Bool :=
   (List.range s.n).all fun i => (List.range s.n).all fun j =>
     (s.ob j).parent == none || (s.ob i).name != fullName s j
 
+/-- `parentMod` is the module the object is in (false for what is inside a re-exported class) -/
+def modulesCoherent (s : Sys) : Bool :=
+  (List.range s.n).all fun i => (s.ob i).modul == moduleByChain s i
+
 /-- what C02 establishes about the registry of a real System, as far as this layer relies on it -/
 def wf (s : Sys) : Bool :=
   (List.range s.n).all (wfObj s)
+  && modulesCoherent s
   && s.roots.all (fun r => decide (r < s.n) && (s.ob r).parent == none)
   && s.all.all (fun i => decide (i < s.n))
   && namesDistinct s
